@@ -337,6 +337,36 @@ def apply_plant(root, entries):
                 os.unlink(p)
 
 
+def member_cut_points(path):
+    """Offsets (in the uncompressed tar stream) of the member headers of a .tar.gz, in order."""
+    offs = []
+    with tarfile.open(path, "r:gz") as t:
+        for m in t:
+            offs.append(m.offset)
+    return offs
+
+
+def compressed_length_for(path, tar_offset):
+    """Smallest number of bytes of the gzip file that decompress to at least `tar_offset` bytes of tar stream."""
+    import zlib
+    data = open(path, "rb").read()
+    d = zlib.decompressobj(16 + zlib.MAX_WBITS)
+    produced = 0
+    step = 64
+    for i in range(0, len(data), step):
+        produced += len(d.decompress(data[i:i + step]))
+        if produced >= tar_offset:
+            # refine inside this step
+            d2 = zlib.decompressobj(16 + zlib.MAX_WBITS)
+            got = len(d2.decompress(data[:i]))
+            for j in range(i, min(len(data), i + step)):
+                got += len(d2.decompress(data[j:j + 1]))
+                if got >= tar_offset:
+                    return j + 1
+            return i + step
+    return len(data)
+
+
 def damage_archive(path, how, arg=None):
     """Corrupt an archive produced by the real `cond archive`."""
     d = tempfile.mkdtemp(prefix="cvdmg_", dir=C.scratch_root())
@@ -345,6 +375,17 @@ def damage_archive(path, how, arg=None):
             size = os.path.getsize(path)
             with open(path, "r+b") as f:
                 f.truncate(max(1, int(size * (arg or 0.5))))
+            return
+        if how == "cut_at_member":
+            # truncate the COMPRESSED file at the byte where the tar stream reaches a member boundary: arg = (k, where) cuts at
+            # the start (where=0) / in the middle (1) / at the end (2) of the 512-byte header of the k-th member from the END
+            cuts = member_cut_points(path)
+            k, where = arg
+            if not cuts:
+                return
+            off = cuts[max(0, len(cuts) - 1 - k)] + (0, 256, 512)[where]
+            with open(path, "r+b") as f:
+                f.truncate(max(1, compressed_length_for(path, off)))
             return
         subprocess.run(["tar", "xzf", path, "-C", d], check=True)
         if how == "noindex":
